@@ -47,7 +47,16 @@ RULE = ("group A (schedules): op {map, imap, collect, icollect} x files 1..4 "
         "max_interval) per shape x loader threads x return_info, the "
         "relation coming from the time coverage (neighbouring files "
         "overlap; widened by max_interval; a sub-period; secondaries 10 h "
-        "away = nothing matched). Contents and FileInfo objects are told "
+        "away = nothing matched); group T (threads, c10_threads.py): the "
+        "worker threads are REAL threads and, with the main thread, run under "
+        "a cooperative scheduler in which every line of a typhon source file "
+        "is a scheduling point (mc/threads.py): op x {2 files / 2 workers, "
+        "3 / 2, 3 / 3} on contents paired with FileInfo, an unreadable file "
+        "under error_to_warning, FileInfo only, a raising function, (thorough) "
+        "a bundle read through a nested pool, and map(output=<FileSet>) with "
+        "two results for one new directory - every schedule with at most 2 "
+        "(map, 2 files) / 1 preemptions (thorough 3 / 2 / 1); blocking and "
+        "thread exit are free choices. Contents and FileInfo objects are told "
         "apart in every observation. For each configuration ALL "
         "interleavings of main-thread synchronisations (submit, result, "
         "shutdown) and pool events (start, finish) are explored with state "
@@ -60,6 +69,9 @@ ASSUMPTIONS = [
     "event), process flavour = pickle round trip of work item and result; "
     "validated by replaying every distinct completion order on the real "
     "ThreadPoolExecutor and a subset on the real ProcessPoolExecutor",
+    "the independence of task bodies is itself checked in group T for "
+    "thread workers (line-level interleavings, preemption-bounded, <= 3 "
+    "files); process workers share nothing but the file system",
     "pool breakage (a worker process killed) is not modelled",
     "<= 6 files",
     "files= holds FileInfo objects (or lists of them); path strings are "
@@ -675,8 +687,9 @@ def shards(tier, seed):
         part = cs[i::n]
         if part:
             out.append(("cfgs", tier, part))
-    from checks import c10_align
+    from checks import c10_align, c10_threads
     out.extend(c10_align.shards(tier, seed))
+    out.extend(c10_threads.shards(tier, seed))
     out.append(("procpool", tier))
     return out
 
@@ -686,6 +699,9 @@ def run_shard(shard):
     if shard[0].startswith("align"):
         from checks import c10_align
         return c10_align.run_shard(shard)
+    if shard[0] == "threads":
+        from checks import c10_threads
+        return c10_threads.run_shard(shard)
     root = driver.fresh_dir("c10")
     cache = {"root": root}
     if shard[0] == "procpool":
@@ -726,6 +742,9 @@ def replay(case):
     if case.get("group") == "align":
         from checks import c10_align
         return c10_align.replay(case)
+    if case.get("group") == "threads":
+        from checks import c10_threads
+        return c10_threads.replay(case)
     from typhon.files import fileset as fsmod
     c = case["cfg"]
     c["fail"] = tuple(c["fail"])
